@@ -17,13 +17,18 @@ func verifBlockForever()
 func verifQuiesce()
 func verifLiveThreads() int
 func verifAdvanceTime()
-func verifFSAddFile(path string, content []byte)
-func verifFSAddDir(path string)
-func verifFSSymbolicExists()
-func verifFSEvents() int
-func verifFSEventPath(i int) string
-func verifFSEventPre(i int) bool
-func verifFSKind(path string) int
+
+// stub file system (symbolic) / sandbox directory (native); see engine/fs.go
+func verifFSRoot() string                         // the destination directory; creates the sandbox
+func verifFSAddFile(path string, content []byte)  // pre-existing file
+func verifFSAddDir(path string)                   // pre-existing directory
+func verifFSTakeAllNames(dir, name string)        // name, name.0, name.1, ... all exist as files in dir
+func verifFSSymbolicExists()                      // every path not declared so far may or may not exist (solver's choice)
+func verifFSBegin()                               // everything present now is "pre-existing"; start recording
+func verifFSEscaped() bool                        // something outside the destination was created, written, truncated or removed
+func verifFSPreTouched() bool                     // something pre-existing was truncated, written or removed
+func verifFSMutations() int                       // number of mutating events since verifFSBegin (compare with 0 only)
+func verifFSKind(path string) int                 // 0 absent, 1 file, 2 directory
 func verifFSContent(path string) []byte
 func verifFSOpenHandles() int
 func verifAbstractName(k int) string
